@@ -94,7 +94,13 @@ func VerifC06FileHistory() {
 	}
 	for step := 0; step < k; step++ {
 		i := verifrt.Choice(len(nodes))
-		switch verifrt.Choice(5) {
+		switch verifrt.Choice(6) {
+		case 5:
+			// a push whose bytes do not match the descriptor is refused and changes nothing
+			verifrt.Event(fmt.Sprintf("PushBad(%d)", i))
+			bad := append([]byte("!"), nodes[i].data...)
+			err := s.Push(ctx, nodes[i].desc, bytes.NewReader(bad[:len(nodes[i].data)]))
+			verifrt.Assert(err != nil, "C06.file.push-wrong-bytes-refused")
 		case 0:
 			verifrt.Event(fmt.Sprintf("Push(%d)", i))
 			err := s.Push(ctx, nodes[i].desc, bytes.NewReader(nodes[i].data))
